@@ -18,6 +18,8 @@ PROGRAMS = [
     "i = 0\nwhile True:\n    i += 1\n    if i > 3:\n        break\nelse:\n    print('no')\nfor j in range(3):\n    if j == 1:\n        continue\n    print(j)\n",
     # class, import, destructuring
     "import os.path as p\nclass A:\n    x = 1\n    def m(self, q, r):\n        return [lambda: q, lambda: r]\na, *b = [1, 2, 3]\nprint(A().m(1, 2)[0](), a, b)\n",
+    # for + break / return inside a for: the generated code carries the iterator-wrapper preset (a module-level AST of the package)
+    "for q in [1, 2, 3]:\n    if q == 2:\n        break\n    print(q)\nelse:\n    print('none')\ndef first(xs):\n    for x in xs:\n        if x:\n            return x\n    return None\nprint(first([0, 3]))\n",
 ]
 
 OPTS = {"unparser": ["ast.unparse", "oneliner"], "expr_wrapper": ["list", "chain_call"],
@@ -86,6 +88,17 @@ def structured_histories():
                 yield [["churn", name, v2, 64], ["convert", None, pi], ["new"], ["convert", 0, pi]]
                 yield [["new"], ["new"], ["set", 0, name, v2], ["set", 1, name, v2], ["drop", 0], ["drop", 1], ["convert", None, pi],
                        ["new"], ["new"], ["new"], ["convert", 2, pi], ["convert", 3, pi], ["convert", 4, pi]]
+
+
+def cross_program_histories():
+    """one program converted with a non-default option, then ANOTHER program with a fresh object and with no options:
+    anything the first conversion leaves behind in the package (caches, shared ASTs, class-level tables) shows here"""
+    for pa in range(len(PROGRAMS)):
+        for pb in range(len(PROGRAMS)):
+            for name in NAMES:
+                v2 = OPTS[name][1 - OPTS[name].index(DEFAULTS[name])]
+                yield [["new"], ["set", 0, name, v2], ["convert", 0, pa], ["new"], ["convert", 1, pb], ["convert", None, pb],
+                       ["convert", 0, pb]]
 
 
 DEFAULTS = {"unparser": "ast.unparse", "expr_wrapper": "chain_call", "if_style": "if_expr"}
@@ -183,7 +196,7 @@ def run(chk, build, replay=None):
         if "history" in v:
             corpus = [v["history"]]
     nrand = 120 if chk.tier == "quick" else 1500
-    hists = list(corpus) + list(structured_histories()) + [gen_history(rng) for _ in range(nrand)]
+    hists = list(corpus) + list(structured_histories()) + list(cross_program_histories()) + [gen_history(rng) for _ in range(nrand)]
     if chk.tier == "thorough":
         hists += list(exhaustive_histories())
     answers = common.model_eval([hist_sexp(h) for h in hists])
